@@ -18,8 +18,8 @@ from metric_learn.exceptions import NonPSDError
 
 PID = 'C20'
 LEVEL = 'exploration'
-RULE = ('all symmetric integer matrices: size 1,2,3 entries in {-2..2}, size 4 entries in {-1,0,1} (thorough: size 4 '
-        'entries in {-2..2} restricted to a 1/16 residue class of the index, rotating with the seed) x scales {1, 2^20, 2^-20}; '
+RULE = ('all symmetric integer matrices: size 1,2,3 entries in {-2..2}, size 4 entries in {-1,0,1} (thorough: also all 9 765 625 size-4 '
+        'matrices with entries in {-2..2}) x scales {1, 2^20, 2^-20}; '
         'singular PSD matrices minus delta*I for delta in {tol/100, 100 tol} x tol in {default, 0, 1e-12, 1e-3}; asymmetric '
         'perturbations; priors {identity, covariance, random, array: valid / asymmetric / wrong shape / indefinite / singular} '
         'x strict_pd x return_inverse x datasets (incl. repeated points and spectra spanning 1e-12..1e12); inits '
@@ -115,10 +115,8 @@ def cases(tier, seed):
         for s in range(ns):
             out.append(('matrices/n=%d/shard=%d' % (n, s), ('mat', n, alph, s, ns, None)))
     if tier == 'thorough':
-        total = 5 ** 10
-        cls16 = seed % 16
-        for s in range(NSHARD * 4):
-            out.append(('matrices/n=4big/class=%d/shard=%d' % (cls16, s), ('mat', 4, (-2, -1, 0, 1, 2), s, NSHARD * 4, cls16)))
+        for s in range(NSHARD * 8):       # all 9 765 625 symmetric 4x4 matrices with entries in {-2..2}
+            out.append(('matrices/n=4big/shard=%d' % s, ('mat', 4, (-2, -1, 0, 1, 2), s, NSHARD * 8, None)))
     out.append(('near_psd', ('near', seed)))
     for dsn in data.names(tier):
         out.append(('priors/%s' % dsn, ('priors', dsn, seed)))
